@@ -32,6 +32,8 @@ fn a3(v: &[Float]) -> A3 { [v[0] as f64, v[1] as f64, v[2] as f64] }
 fn ray_of(v: &[Float]) -> Ray3D { Ray3D { origin: p3(&v[0..3]), direction: v3(&v[3..6]) } }
 
 pub const DEBUG: bool = cfg!(debug_assertions);
+/// `"f32":true,` in the JSON of a case produced by the f32 build (the bit patterns are then 32-bit ones)
+fn f32_json() -> &'static str { if cfg!(feature = "float") { "\"f32\":true," } else { "" } }
 
 fn side_code(s: SurfaceSide) -> Float { match s { SurfaceSide::Front => 0.0, SurfaceSide::Back => 1.0, SurfaceSide::NonApplicable => 2.0 } }
 fn enc_pt(o: Option<Point3D>) -> Vec<Float> { match o { None => vec![0.0], Some(p) => vec![1.0, p.x, p.y, p.z] } }
@@ -229,7 +231,11 @@ fn small_delta(r: &mut Rng) -> f64 {
     let m = *r.pick(&[0.0, 1e-16, 1e-15, 1e-13, 1e-12, 1e-10, 1e-9, 2e-9, 1e-8, 1e-7, 1e-6, 2e-6, 1e-5, 1e-3]);
     if r.chance(0.5) { -m } else { m }
 }
-const TINY: f64 = 100.0 * f64::EPSILON;
+/// the crate's `100. * Float::EPSILON` (of the working precision: binary32 under `--features float`)
+const FEPS: f64 = Float::EPSILON as f64;
+const TINY: f64 = 100.0 * FEPS;
+/// rounding-sized offsets of the generators are written for binary64; they are scaled to the working precision (x 1 in the f64 build)
+const FSCALE: f64 = FEPS / f64::EPSILON;
 
 /// A ray aimed at the point `q` of a surface with normal `n` (unit).  `mode`: 0 = from a random side towards q,
 /// 1 = q is behind the origin, 2 = nearly parallel to the surface, 3 = distance close to the `t` threshold `thr`,
@@ -246,6 +252,7 @@ fn aim(r: &mut Rng, q: A3, n: A3, mode: usize, thr: f64, cthr: f64) -> (A3, A3, 
             let a = r.range(0.0, 6.283);
             let tang = add(scl(t1, a.cos()), scl(t2, a.sin()));
             let k = *r.pick(&[0.0, 1e-17, 1e-16, 2e-16, 3e-16, 1e-15, 1e-14, 2e-14, 3e-14, 1e-12, 1e-9, 1e-6]);
+            let k = (k * FSCALE).min(1e-3);
             w = add(tang, scl(n, if r.chance(0.5) { k } else { -k }));
         }
         3 => { s = if thr > 0.0 { thr * l * (1.0 + small_delta(r)) * if r.chance(0.2) { 0.0 } else { 1.0 } } else { small_delta(r) * l }; }
@@ -313,8 +320,8 @@ impl<'a> Gen<'a> {
         let (prim, out) = match exec(op, recipe, rays) { Some(x) => x, None => return false };
         self.sink.push(
             format!("({}%N, {}, {}, {})", op, sfs(&prim), sfs(rays), sfs(&out)),
-            format!("{{\"part\":\"pflat\",\"op\":{},\"kind\":\"{}\",\"cat\":\"{}\",\"debug\":{},\"recipe\":{},\"prim\":{},\"rays\":{},\"out\":{}{}}}",
-                    op, op_name(op), cat, if DEBUG { 1 } else { 0 }, jfs(recipe), jfs(&prim), jfs(rays), jfs(&out), extra),
+            format!("{{\"part\":\"pflat\",{}\"op\":{},\"kind\":\"{}\",\"cat\":\"{}\",\"debug\":{},\"recipe\":{},\"prim\":{},\"rays\":{},\"out\":{}{}}}",
+                    f32_json(), op, op_name(op), cat, if DEBUG { 1 } else { 0 }, jfs(recipe), jfs(&prim), jfs(rays), jfs(&out), extra),
         );
         true
     }
@@ -356,7 +363,7 @@ impl<'a> Gen<'a> {
         let t1 = perp(n);
         let q = add(point, add(scl(t1, self.r.range(-5.0, 5.0)), scl(cross(n, t1), self.r.range(-5.0, 5.0))));
         let mode = if boundary { *self.r.pick(&[3, 3, 4, 4, 2]) } else { *self.r.pick(&[0, 0, 0, 1, 1, 2]) };
-        let (o, d, _) = aim(self.r, q, n, mode, 0.0, f64::EPSILON);
+        let (o, d, _) = aim(self.r, q, n, mode, 0.0, FEPS);
         let cn = match mode { 0 => "towards", 1 => "behind", 2 => "parallel", 3 => "boundary:t~0", _ => "boundary:den~eps" };
         let rays: Vec<Float> = [fl3(o), fl3(d)].concat();
         if self.x.chance(0.3) {
@@ -364,7 +371,7 @@ impl<'a> Gen<'a> {
             let (tp, tcat): (A3, &str) = match self.x.below(5) {
                 0 => (point, "test_point:defining"),
                 1 => (q, "test_point:on~rounding"),
-                2 | 3 => { let k = *self.x.pick(&[1e-17, 1e-16, 2e-16, 2.3e-16, 4e-16, 1e-15, 1e-14, 1e-12, 1e-9]); (add(q, scl(n, if self.x.chance(0.5) { k } else { -k })), "test_point:near") }
+                2 | 3 => { let k = *self.x.pick(&[1e-17, 1e-16, 2e-16, 2.3e-16, 4e-16, 1e-15, 1e-14, 1e-12, 1e-9]) * FSCALE; (add(q, scl(n, if self.x.chance(0.5) { k } else { -k })), "test_point:near") }
                 _ => (add(q, scl(n, self.x.range(-3.0, 3.0))), "test_point:off"),
             };
             let pt: Vec<Float> = fl3(tp).to_vec();
@@ -464,7 +471,7 @@ impl<'a> Gen<'a> {
         }
         let ql = add(c, add(scl(pz, rho * phi.cos()), scl(e2, rho * phi.sin())));
         let mode = if pair { 0 } else if boundary && cat == 8 { *self.r.pick(&[3, 4, 2]) } else { *self.r.pick(&[0, 0, 0, 0, 0, 0, 1, 2]) };
-        let (ol, dl, _) = aim(self.r, ql, n, mode, 0.0, f64::EPSILON);
+        let (ol, dl, _) = aim(self.r, ql, n, mode, 0.0, FEPS);
         let cn = match mode { 1 => "behind".to_string(), 2 => "parallel".to_string(), 3 => "boundary:t~0".to_string(), 4 => "boundary:den~eps".to_string(), _ => cname.to_string() };
         // world ray: image of the local ray under the disk's transform
         let has_tr = rec.len() > 12;
@@ -570,6 +577,9 @@ pub fn run(seed: u64, n: usize, out: &str, emph: usize) {
     // emph: 2 = C02 (soundness: more outside / beyond-hypotenuse), 3 = C03 (decision boundaries), 13 = C13 (pairs, hit data)
     let mut r = Rng::new(seed ^ (0xF1A7 + emph as u64));
     let mut g = Gen { r: &mut r, x: Rng::new(seed ^ (0xF1A7E + emph as u64)), sink: Sink::new(out, "Flat", 250), emph };
+    // the f32 build is evaluated by the same runner text instantiated on the binary32 number instance (Run/Flat.v, module Flatf32)
+    #[cfg(feature = "float")]
+    { g.sink.runner = "Flatf32".to_string(); }
     corpus(&mut g);
     let mut guard = 0usize;
     while g.sink.len() < n && guard < 50 * n + 1000 {
@@ -595,9 +605,9 @@ pub fn replay(args: &[String]) {
     let v: Vec<Float> = args[2..].iter().map(|s| Float::from_bits(s.parse().unwrap())).collect();
     let (recipe, rays) = v.split_at(nrec);
     match exec(op, recipe, rays) {
-        None => println!("{{\"part\":\"pflat\",\"op\":{},\"kind\":\"{}\",\"cat\":\"replay\",\"debug\":{},\"recipe\":{},\"prim\":[],\"rays\":{},\"out\":[],\"unbuildable\":1}}",
-                         op, op_name(op), if DEBUG { 1 } else { 0 }, jfs(recipe), jfs(rays)),
-        Some((prim, out)) => println!("{{\"part\":\"pflat\",\"op\":{},\"kind\":\"{}\",\"cat\":\"replay\",\"debug\":{},\"recipe\":{},\"prim\":{},\"rays\":{},\"out\":{},\"rigid\":0,\"chain\":[]}}",
-                                      op, op_name(op), if DEBUG { 1 } else { 0 }, jfs(recipe), jfs(&prim), jfs(rays), jfs(&out)),
+        None => println!("{{\"part\":\"pflat\",{}\"op\":{},\"kind\":\"{}\",\"cat\":\"replay\",\"debug\":{},\"recipe\":{},\"prim\":[],\"rays\":{},\"out\":[],\"unbuildable\":1}}",
+                         f32_json(), op, op_name(op), if DEBUG { 1 } else { 0 }, jfs(recipe), jfs(rays)),
+        Some((prim, out)) => println!("{{\"part\":\"pflat\",{}\"op\":{},\"kind\":\"{}\",\"cat\":\"replay\",\"debug\":{},\"recipe\":{},\"prim\":{},\"rays\":{},\"out\":{},\"rigid\":0,\"chain\":[]}}",
+                                      f32_json(), op, op_name(op), if DEBUG { 1 } else { 0 }, jfs(recipe), jfs(&prim), jfs(rays), jfs(&out)),
     }
 }
